@@ -483,6 +483,7 @@ def write_evidence(pid, tier, seed, gate, streams, wall, violations, assumptions
             {"name": s.name, "mode": s.mode, "cases": s.n, "distinct_nontrivial": s.distinct_nontrivial,
              "exhaustive": s.exhaustive, "bounds": s.bounds, "disagreements": len(s.disagree),
              "oracle_failures": len(s.oracle_fail), "known_finding_hits": s.known,
+             "transient_timing_disagreements": getattr(s, "transient", 0),
              "histogram": dict(sorted(s.hist.items(), key=lambda kv: -kv[1])[:40]), "wall_s": round(s.wall, 2)}
             for s in streams],
         "disagreements_checked": evaluations,
